@@ -415,6 +415,9 @@ var modelEffects = map[string][]modelEff{
 	"unicode/utf8.EncodeRune":         {{"arr.bv8", 0}},
 	"context.WithValue":               nil,
 	"(*net/http.Request).WithContext": nil,
+	"(*github.com/patrickmn/go-cache.cache).Set":    {{"map:Str:gocache", 0}, {"gocache", 0}},
+	"(*github.com/patrickmn/go-cache.cache).Delete": {{"map:Str:gocache", 0}},
+	"(*github.com/patrickmn/go-cache.cache).Get":    nil,
 }
 
 func (x *Exec) loopModSet(fr *Frame, li *loopInfo) *effectSet {
@@ -572,6 +575,12 @@ func (c *scanCtx) call(caller *ssa.Function, call *ssa.CallCommon, isGo bool) {
 		}
 		if _, ok := ifaceModels[qualifiedTypeName(call.Value.Type())+"."+call.Method.Name()]; ok {
 			return
+		}
+		if impl := c.x.prog.singleImpl(call.Value.Type()); impl != nil {
+			if f := c.x.prog.ssa.LookupMethod(impl, call.Method.Pkg(), call.Method.Name()); f != nil {
+				c.static(f, all, isGo)
+				return
+			}
 		}
 		if mi, ok := call.Value.(*ssa.MakeInterface); ok {
 			if f := c.x.prog.ssa.LookupMethod(mi.X.Type(), call.Method.Pkg(), call.Method.Name()); f != nil {
